@@ -61,7 +61,7 @@ var c16ValueNames = func() []string {
 }()
 
 func genC16(t *rapid.T) c16Case {
-	kind := rapid.SampledFrom([]string{"boundary", "boundary", "near", "uniform32", "uniformlen", "sparse", "scalar", "qlimbs", "qlimbs"}).Draw(t, "kind")
+	kind := rapid.SampledFrom([]string{"boundary", "boundary", "near", "uniform32", "uniformlen", "sparse", "scalar", "qlimbs", "qlimbs", "multiple", "multiple"}).Draw(t, "kind")
 	var b []byte
 	switch kind {
 	case "boundary", "near":
@@ -90,6 +90,37 @@ func genC16(t *rapid.T) c16Case {
 		}
 		b = raw
 		kind = fmt.Sprintf("%s:%s:le=%v:w=%d", kind, name, le, width)
+	case "multiple": // k*r +- d: just below / above a multiple of the modulus, d from 0 up to about 2^189
+		k := int64(rapid.IntRange(0, 9).Draw(t, "k"))
+		v := new(big.Int).Mul(ref.R, big.NewInt(k))
+		wide := rapid.IntRange(0, 5).Draw(t, "wide") == 0
+		if wide { // longer strings: multiples far beyond 2^256
+			v.Mul(v, new(big.Int).Add(new(big.Int).Lsh(big.NewInt(1), uint(rapid.IntRange(1, 200).Draw(t, "kshift"))), big.NewInt(1)))
+		}
+		d := new(big.Int).Lsh(big.NewInt(1), uint(rapid.SampledFrom([]int{0, 1, 31, 32, 63, 64, 127, 128, 187, 188, 189, 190}).Draw(t, "dexp")))
+		d.Add(d, big.NewInt(int64(rapid.IntRange(-1, 1).Draw(t, "dadj"))))
+		if rapid.Bool().Draw(t, "below") {
+			v.Sub(v, d)
+		} else {
+			v.Add(v, d)
+		}
+		if v.Sign() < 0 {
+			v.Neg(v)
+		}
+		raw := v.Bytes()
+		if !wide && len(raw) > 32 {
+			raw = raw[len(raw)-32:]
+		}
+		width := rapid.SampledFrom([]int{32, 32, 32, 33, 40, 64}).Draw(t, "width")
+		if len(raw) < width {
+			raw = append(make([]byte, width-len(raw)), raw...)
+		}
+		if rapid.Bool().Draw(t, "little_endian") {
+			for i, j := 0, len(raw)-1; i < j; i, j = i+1, j-1 {
+				raw[i], raw[j] = raw[j], raw[i]
+			}
+		}
+		b = raw
 	case "qlimbs": // every limb chosen relative to the corresponding limb of the modulus
 		cls := rapid.SliceOfN(rapid.IntRange(0, 5), 4, 4).Draw(t, "limb_classes")
 		v := qLimbValue(cls, rapid.Uint64().Draw(t, "seed"))
@@ -167,8 +198,21 @@ func evalC16(c c16Case, rec *hx.Rec) error {
 	}
 
 	check := func(name string, want *big.Int, dec func(z *fr.Element, b []byte) (bool, error)) error {
-		// decode twice on the same buffer
-		buf := append([]byte(nil), in...)
+		// decode twice on the same buffer; the buffer is a window of a larger caller-owned array (spare capacity behind it)
+		backing := make([]byte, len(in)+40)
+		for i := range backing {
+			backing[i] = 0xC3
+		}
+		copy(backing, in)
+		buf := backing[:len(in)]
+		tailOK := func() bool {
+			for _, x := range backing[len(in):] {
+				if x != 0xC3 {
+					return false
+				}
+			}
+			return true
+		}
 		var z1, z2 fr.Element
 		z1 = hx.FrSetRaw(new(big.Int).Sub(ref.R, big.NewInt(0x1234567))) // dirty receivers: every limb non-zero, and
 		z2 = hx.FrSetRaw(new(big.Int).Rsh(ref.R, 1))                     // different in the two calls
@@ -180,11 +224,14 @@ func evalC16(c c16Case, rec *hx.Rec) error {
 		if !bytes.Equal(buf, in) {
 			return fmt.Errorf("%s modified its input: %x -> %x", name, in, buf)
 		}
+		if !tailOK() {
+			return fmt.Errorf("%s wrote into the caller's array behind the %d-byte slice it was given: %x", name, len(in), backing[len(in):])
+		}
 		if perr := hx.Try(func() { ok2, e2 = dec(&z2, buf) }); perr != nil {
 			return fmt.Errorf("%s (second call): %w", name, perr)
 		}
-		if !bytes.Equal(buf, in) {
-			return fmt.Errorf("%s modified its input on the second call: %x -> %x", name, in, buf)
+		if !bytes.Equal(buf, in) || !tailOK() {
+			return fmt.Errorf("%s modified its input (or the array behind it) on the second call: %x -> %x", name, in, backing)
 		}
 		wantOK := want != nil
 		if ok1 != wantOK || ok2 != wantOK {
